@@ -83,11 +83,12 @@ def build(variant="plain", quiet=True):
     exe = os.path.join(bdir, "vh")
     if os.path.exists(exe):
         return exe
-    # drop stale builds of the same variant (disk is limited), keeping the two most recent ones: another check may
-    # still be running from them
+    # drop stale builds of the same variant (disk is limited), keeping the four most recent ones and anything younger than an
+    # hour: another check (or a run against another tree, VERIF_REPO) may still be running from them
     old = sorted(glob.glob(os.path.join(VERIF, ".build", variant + "-*")), key=lambda d: os.path.getmtime(d))
-    for d in old[:-2]:
-        shutil.rmtree(d, ignore_errors=True)
+    for d in old[:-4]:
+        if time.time() - os.path.getmtime(d) > 3600:
+            shutil.rmtree(d, ignore_errors=True)
     final_bdir = bdir
     bdir = bdir + ".tmp%d" % os.getpid()
     exe = os.path.join(bdir, "vh")
